@@ -23,6 +23,83 @@ pub struct ExploreCfg {
     pub wall: Duration,
     pub track_sizes: bool,
     pub sniff: bool,
+    /// application/configuration variants added to the scenario list: every `variant_every`-th
+    /// scenario is copied with the next applicable modifier of this menu (round robin), see
+    /// `with_variants`. The property under test must hold under every modifier of the menu.
+    pub variants: &'static [Mod],
+    pub variant_every: usize,
+}
+
+/// Behaviour-preserving changes of configuration or application behaviour.
+#[derive(Clone, Copy, Debug, PartialEq)]
+pub enum Mod {
+    /// desync detection on with this interval (deterministic games: no report may follow)
+    Desync(u32),
+    /// the games save their states without a checksum
+    NoChecksum,
+    /// the applications never drain the event queue
+    Undrained,
+    /// the last peer only ticks every second round
+    UnevenTicks,
+}
+
+pub const CORE_MENU: &[Mod] = &[Mod::Desync(1), Mod::NoChecksum, Mod::Undrained, Mod::Desync(3), Mod::UnevenTicks];
+pub const NET_MENU: &[Mod] = &[Mod::Desync(1), Mod::NoChecksum, Mod::Desync(3)];
+
+fn apply_mod(s: &Scenario, m: Mod) -> Option<Scenario> {
+    let mut x = s.clone();
+    match m {
+        Mod::Desync(iv) => {
+            if s.peers.iter().any(|p| p.desync != 0) || !s.no_checksum.is_empty() {
+                return None;
+            }
+            x.peers.iter_mut().for_each(|p| p.desync = iv);
+        }
+        Mod::NoChecksum => {
+            if !s.no_checksum.is_empty() || s.peers.iter().any(|p| p.desync != 0) || s.diverge.is_some() {
+                return None;
+            }
+            x.no_checksum = (0..s.peers.len()).collect();
+        }
+        Mod::Undrained => {
+            if s.peers.iter().any(|p| !p.drain) {
+                return None;
+            }
+            x.peers.iter_mut().for_each(|p| p.drain = false);
+            x.specs.iter_mut().for_each(|p| p.drain = false);
+        }
+        Mod::UnevenTicks => {
+            if s.peers.len() < 2 || s.peers.iter().any(|p| p.tick_every != 1 || p.use_wait) || !s.scripted_stalls.is_empty() {
+                return None;
+            }
+            x.peers.last_mut().unwrap().tick_every = 2;
+        }
+    }
+    x.name = format!("{} +{m:?}", s.name);
+    Some(x)
+}
+
+/// The scenario list plus, for every `every`-th scenario, one copy under the next applicable
+/// modifier of the menu.
+pub fn with_variants(scns: &[Scenario], menu: &[Mod], every: usize) -> Vec<Scenario> {
+    let mut out: Vec<Scenario> = scns.to_vec();
+    if menu.is_empty() {
+        return out;
+    }
+    let mut next = 0usize;
+    for (i, s) in scns.iter().enumerate() {
+        if i % every.max(1) != 0 {
+            continue;
+        }
+        for t in 0..menu.len() {
+            if let Some(x) = apply_mod(s, menu[(next + t) % menu.len()]) {
+                out.push(x);
+                next = (next + t + 1) % menu.len();
+                break;
+            }
+        }
+    }
+    out
 }
 
 impl Default for ExploreCfg {
@@ -35,6 +112,8 @@ impl Default for ExploreCfg {
             wall: Duration::from_secs(3600),
             track_sizes: false,
             sniff: false,
+            variants: &[],
+            variant_every: 1,
         }
     }
 }
@@ -307,8 +386,34 @@ fn worker(sh: &Shared) {
     }
 }
 
+/// Coverage audit of the driver: how many scenarios exhibited each feature value and each pair of
+/// feature values (see `Scenario::features`). Written to the evidence by `Report::finish`.
+pub static AUDIT: Mutex<Option<HashMap<(String, String), u64>>> = Mutex::new(None);
+
+pub fn audit_scenarios(scns: &[Scenario], k: Option<usize>, stateful: bool) {
+    let mut g = AUDIT.lock().unwrap();
+    let m = g.get_or_insert_with(HashMap::new);
+    for s in scns {
+        let f = s.features(k, stateful);
+        for i in 0..f.len() {
+            *m.entry((f[i].clone(), String::new())).or_insert(0) += 1;
+            for j in i + 1..f.len() {
+                *m.entry((f[i].clone(), f[j].clone())).or_insert(0) += 1;
+            }
+        }
+    }
+}
+
 pub fn explore(scns: &[Scenario], cfg: &ExploreCfg, judge: Judge) -> ExploreOut {
     assert!(cfg.k.is_some() || cfg.stateful, "unbounded exploration needs the visited set");
+    let owned: Vec<Scenario>;
+    let scns: &[Scenario] = if cfg.variants.is_empty() {
+        scns
+    } else {
+        owned = with_variants(scns, cfg.variants, cfg.variant_every);
+        &owned
+    };
+    audit_scenarios(scns, cfg.k, cfg.stateful);
     let t0 = Instant::now();
     let mut roots: Vec<(usize, Devs)> = (0..scns.len()).map(|i| (i, Vec::new())).collect();
     roots.reverse();
